@@ -132,6 +132,14 @@ pub fn execute<D: Store>(d: &mut D, entry_jump: usize, input: usize) -> String {
                 }
             }
         }
+        // the input-value stack holds the program's input plus one entry per entered expression / side effect: before any
+        // instruction executes it is never shorter than it was when the run started
+        if depth_note == "ok" {
+            let vl = d.value_stack_len();
+            if vl != usize::MAX && vl < vals0 + 1 {
+                depth_note = format!("values@{}:{}", pc, vl as i64 - vals0 as i64);
+            }
+        }
         let f_before = d.frame_depth();
         let ops_before = d.operands().len();
         let res = execute_current_instruction(d);
@@ -143,6 +151,12 @@ pub fn execute<D: Store>(d: &mut D, entry_jump: usize, input: usize) -> String {
                     None => e.get_message().clone(),
                 };
                 let msg: String = msg.chars().filter(|c| *c != '\n' && *c != '\t').take(120).collect();
+                if depth_note == "ok" {
+                    let vl = d.value_stack_len();
+                    if vl != usize::MAX && vl < vals0 + 1 {
+                        depth_note = format!("values@{}:{}", pc, vl as i64 - vals0 as i64);
+                    }
+                }
                 let out = format!("runerr@{} {:?} depth={} log={} msg={}", steps, e.get_type(), depth_note, d.host_log().join(";"), msg);
                 unwind(d, raw_regs0, vals0, frames0);
                 return out;
